@@ -697,6 +697,10 @@ _FRAGS = ["{{", "}}", "{%", "%}", "{#", "#}", "{{ x }}", "{% if x %}", "{% endif
           " ", "  ", "\n", "1", "a", "a.b", "*", "CASE", "WHEN", "END", "AS", "JOIN", "ON", "=", "IN", "NULL", "CREATE", "TABLE", "-- sqlfluff:"]
 
 
+# inputs that made other stand-ins fail (C01 token positions: whitespace made of templated + literal + templated pieces)
+_SEEDS = ['SELECT 1{{ " " }} {{ " " }}FROM t\n', "SELECT a  {% if true %}  {% endif %}  , b FROM t\n"]
+
+
 def _fuzz_inputs(rng, n):
     out = []
     for i in range(n):
@@ -822,6 +826,14 @@ def fuzz_no_crash(tier="quick", seed=0):
     inputs = _fuzz_inputs(rng, n)
     combos = [(d, t) for d in _FUZZ_DIALECTS for t in _FUZZ_TEMPLATERS]
     tasks = [(s, *combos[i % len(combos)]) for i, s in enumerate(inputs)]
+    # systematic part (same in both tiers): every character and fragment alone, and every ordered pair of the bracket / quote / tag
+    # openers and closers, each through all three templaters (dialects in rotation)
+    pairs = ["(", ")", "[", "]", "'", '"', "`", "{{", "}}", "{%", "%}", "{#", "#}", "--", "/*"]
+    systematic = list(dict.fromkeys(_CHARS + _FRAGS + [a + b for a in pairs for b in pairs]))
+    systematic += [x for x in _SEEDS if x not in systematic]
+    for i, s in enumerate(systematic):
+        for j, t in enumerate(_FUZZ_TEMPLATERS):
+            tasks.append((s, _FUZZ_DIALECTS[(i + j) % len(_FUZZ_DIALECTS)], t))
     t0 = time.time()
     with _pool() as pool:
         res = list(pool.map(_fuzz_task, tasks, chunksize=8))
@@ -850,7 +862,8 @@ def fuzz_no_crash(tier="quick", seed=0):
     samples = [{"input_repr": ascii(s), "dialect": d, "templater": t, "outcome": "returned", "seconds": round(dt, 3)}
                for s, d, t, r, dt in res if r is None and len(s) > 20][:3]
     return {"name": "fuzz-no-crash",
-            "bound": f"{n} seeded strings of length <= 40 over {len(_CHARS)} characters (printable, odd unicode, NUL, lone surrogates) and "
+            "bound": f"{len(systematic)} systematic strings (each character / fragment alone, all ordered pairs of {len(pairs)} openers and closers) x 3 templaters + "
+                     f"{n} seeded strings of length <= 40 over {len(_CHARS)} characters (printable, odd unicode, NUL, lone surrogates) and "
                      f"{len(_FRAGS)} fragments (brackets, quotes, jinja tags, keywords), each through one of {len(combos)} dialect x templater "
                      f"combinations (round robin), Linter.lint_string(fix=True)",
             "rule": "non-trivial = contains a bracket, quote or template tag",
